@@ -69,6 +69,7 @@ class Engine:
         self.pruned_win = 0
         self.abstractions = set()
         self.trusted_used = set()
+        self.applied = set()
         self.inlined = set()
         self.user_call_hooks = []
         self.at_call_hooks = []
@@ -119,15 +120,19 @@ class Engine:
                      list(st.notes), v.model, kind, site, v.raw)
         if v.status == "sat":
             r.model_txt = self._model_text(v.model, st)
-            r.replay_inputs = self._replay_inputs(v.model, st)
+            r.replay_inputs = self._replay_inputs(v.model, st, name)
         self.results.append(r)
         return r
 
-    def _replay_inputs(self, model, st):
+    def _replay_inputs(self, model, st, name=""):
         """Concrete inputs for the native replay harness of the contract
         under verification, read off the counter-model."""
         c = self.cur_contract
         spec = getattr(c, "replay_", None) if c is not None else None
+        for match, harness_, inputs_ in (getattr(c, "replays_", []) if c is not None else []):
+            if match in name:
+                spec = (harness_, inputs_)
+                break
         if not spec or model is None:
             return None
         harness, exprs = spec
